@@ -14,7 +14,11 @@ The check establishes the premise for everything reachable from eval_node:
   C20-R3  every operator of eval_node is its defining equation over pointwise primitives (the C01 / C02 / C12 / C13 shapes:
           set algebra, pre-images, comparator, projections of state / auxiliary variables, recursive results), evaluated
           on the caller's graph or a restriction of it whose restriction is itself computed pointwise.
-Not decided: the pointwise-ness of the library primitives themselves (L2, L5)."""
+Not decided: the pointwise-ness of the library primitives themselves (L2, L5).
+  C20-R4  the fixed-point / attractor shortcuts are the library's coloured computations on the graph's unit set: compute_steady_states =
+          FixedPoints::symbolic(graph, unit), compute_attractor_states = union over the attractor iterator (shared with C12-R3); a
+          per-vertex variant would answer for all colours at once.
+"""
 import callgraph
 import evalnode as E
 import norm
@@ -238,6 +242,16 @@ def run(prog, rep):
                           "empty-universe shortcut: a decision taken for all colours at once makes one colour's answer depend on the others")
     rep.floor("C20-R1", 3)
     rep.floor("C20-R2", 3)
+    # the fixed-point and attractor shortcuts are the library's coloured computations on the graph's unit set (a per-vertex variant
+    # would answer for all colours at once): shared with C12-R3
+    rep.rule("C20-R4", "compute_steady_states / compute_attractor_states are the coloured library computations (shared with C12-R3)")
+    import c12
+    sub12 = type(rep)("C20s")
+    c12.run(prog, sub12)
+    for i in sub12.instances:
+        if i.rule == "C12-R3":
+            (rep.ok if i.verdict == "ok" else rep.violation if i.verdict == "violation" else rep.unresolved)("C20-R4", i.key.split(":", 1)[1], i.where, i.detail)
+    rep.floor("C20-R4", 2)
     # R3: closure - the value of every node shape is built from pointwise primitives only
     import c03
     for key, shape in c03.all_shapes():
